@@ -539,8 +539,7 @@ Proof.
   intros W (S1 & S2 & S3 & S4 & S5) Hrb. cbn zeta.
   assert (Hrp : realpos f = pos f) by (rewrite (w_real _ W), Hrb; cbn; lia).
   split.
-  { intros Hb. apply winv_rbnil; cbn; try apply W; try assumption.
-    intros Hb'. congruence. }
+  { intros Hb. apply winv_rbnil; cbn; try assumption; try (intros Hb'; congruence); apply W. }
   destruct d as [|x d'].
   - cbn [is_nil]. unfold sim, view_content, view_pos. cbn. rewrite app_nil_r.
     repeat split; assumption.
